@@ -65,7 +65,7 @@ TRead   == /\ Ev.op = "read"
            /\ Read(Ev.o, Ev.f)
            /\ LET fl == fld[Ev.o][Ev.f] IN
               IF zone'[Ev.o][Ev.f] = "read" /\ Decided(Ev.f, fl)
-              THEN Ev.res.k = "ok" /\ SameRecs(Ev.f, Ev.res.recs, Expected(Ev.f, fl))
+              THEN Ev.res.k = "ok" /\ \E ex \in {Expected(Ev.f, fl)} : SameRecs(Ev.f, Ev.res.recs, ex)
               ELSE (Ev.res.k # "ok" \/ ~SameRecs(Ev.f, Ev.res.recs, res'.v) \/ res'.mut) => PrintT(<<"DRIFT", tid, l>>)
 \* a single line, any shape
 TLine   == /\ Ev.op = "line" /\ Keep
